@@ -202,6 +202,8 @@ class Report:
         self.violations = []      # list of dict(kind, what, replay)
         self.known_lines = []
         self._distinct = set()
+        self._last = time.time()
+        self._slow = []           # (seconds, suite, key) of the slowest cases, for the evidence file
 
     # suites ---------------------------------------------------------------
     def suite(self, name):
@@ -211,6 +213,11 @@ class Report:
         s = self.suite(suite)
         s["cases"] += 1
         self.cov["evaluations"] += 1
+        now = time.time()
+        dt, self._last = now - self._last, now
+        if dt > 3 and (len(self._slow) < 8 or dt > self._slow[-1][0]):
+            self._slow.append((round(dt, 1), suite, json.dumps(key, default=str)[:600]))
+            self._slow.sort(key=lambda x: -x[0]); del self._slow[8:]
         h = hashlib.sha1(json.dumps([suite, key], sort_keys=True, default=str).encode()).hexdigest()
         if nontrivial and h not in self._distinct:
             self._distinct.add(h)
@@ -232,6 +239,8 @@ class Report:
             cov["discharged"] = discharged
             cov["checker_cmd"] = checker_cmd or "cd lean && lake build FP && lake env lean <audit file with #print axioms>"
             cov["trusted_base"] = trusted or []
+        if self._slow:
+            cov["slowest_cases_s"] = [list(x) for x in self._slow]
         if not cov["samples"]:
             cov["samples"] = ["(no case executed)"]
         ev = {"property_id": self.pid, "tier": self.tier, "seed": seed(), "level": level,
